@@ -257,10 +257,8 @@ func genVerify(t *rapid.T) verifyCase {
 		e := encodings(tor[rapid.IntRange(0, 7).Draw(t, "ti")])
 		c.PK = e[rapid.IntRange(0, len(e)-1).Draw(t, "enc")]
 		if rapid.Bool().Draw(t, "fit") {
-			// with x unknown an attacker picks s, c freely; use the honest-looking proof for alpha under this key
-			H, _ := ref.EncodeToCurve(c.PK, alpha)
-			_ = H
-			copy(c.Pi[32:48], make([]byte, 16))
+			// the proof an attacker can forge for a small-order key (verifies unless the key is rejected)
+			c.Pi = forge(c.PK, alpha, rapid.Uint64().Draw(t, "k0"))
 		}
 		c.Kind = "key-small-order"
 	case 8: // non-canonical key encodings: y + p for the honest key is impossible (y >= 19), so flip to other trap encodings
@@ -296,6 +294,20 @@ func TestVerify(t *testing.T) {
 	})
 }
 
+// forge builds the proof an attacker can make for a small-order key Y without any secret:
+// Gamma = identity, s = k, c = challenge(Y, H, Gamma, kB, kH), retrying k until c*Y = O (c = 0 mod 8).
+// Such a proof verifies in an implementation that forgets ECVRF_validate_key for this key.
+func forge(pk, alpha []byte, k0 uint64) []byte {
+	H, _ := ref.EncodeToCurve(pk, alpha)
+	id := ed.Identity()
+	for k := new(big.Int).SetUint64(k0 | 1); ; k.Add(k, big.NewInt(2)) {
+		c := ref.Challenge(pk, H.Encode(), id, ed.B.Mul(k), H.Mul(k))
+		if new(big.Int).Mod(c, big.NewInt(8)).Sign() == 0 {
+			return append(append(id.Encode(), ed.LEBytes(c, 16)...), ed.LEBytes(k, 32)...)
+		}
+	}
+}
+
 // all small-order / non-canonical key encodings, complete
 type keyCase struct {
 	Enc h.B `json:"key"`
@@ -305,7 +317,7 @@ func TestKeyEncodings(t *testing.T) {
 	pi, _, _ := ref.Prove(make([]byte, 32), []byte("alpha"))
 	h.RunEnum(t, h.Enum[keyCase]{
 		Prop: "C18", Name: "small-order-and-noncanonical-keys",
-		Rule: "complete enumeration of every encoding (canonical, y+p, flipped sign for x = 0) of the 8 small-order points plus y = p..p+18 with both sign bits as public key: Verify must reject each",
+		Rule: "complete enumeration of every encoding (canonical, y+p, flipped sign for x = 0) of the 8 small-order points plus y = p..p+18 with both sign bits as public key, each with an honest proof of another key and with the forged proof (Gamma = O, s = k, c = 0 mod 8) that verifies unless the key is rejected: Verify must reject each",
 		Each: func(yield func(keyCase) bool) {
 			for _, p := range ed.Torsion() {
 				for _, e := range encodings(p) {
@@ -327,6 +339,12 @@ func TestKeyEncodings(t *testing.T) {
 		Check: func(k keyCase) (h.Info, error) {
 			info, err := checkVerify(verifyCase{Kind: "key-enum", PK: k.Enc, Alpha: []byte("alpha"), Pi: append(h.B{}, pi...)})
 			info.NT = true
+			if err == nil {
+				// the forged proof that would verify if the key were not rejected
+				if _, ok := ed.DecodeZIP215(k.Enc); ok {
+					_, err = checkVerify(verifyCase{Kind: "key-enum", PK: k.Enc, Alpha: []byte("alpha"), Pi: forge(k.Enc, []byte("alpha"), 12345)})
+				}
+			}
 			if err == nil && info.Class == "key-enum/accept" {
 				return info, fmt.Errorf("harness self-check: reference accepts a small-order / non-canonical key %x", []byte(k.Enc))
 			}
